@@ -38,14 +38,14 @@ pub fn gen_c10(rng: &mut Rng, thorough: bool, emit: &mut dyn FnMut(SchedCase)) {
                     if !thorough && !rng.chance(1, 3) && !(spurious == 0 && !fresh) {
                         continue;
                     }
-                    emit(SchedCase { cap, program: prog.clone(), fresh_waker: fresh, spurious, drop_after: None, probe_held: false,
+                    emit(SchedCase { cap, program: prog.clone(), fresh_waker: fresh, spurious, drop_after: None, probe_held: false, sample_hints: false,
                                      class: format!("S:cap={} fresh={} spurious={} prog={:?}", cap, fresh, spurious, short(&prog)) });
                 }
             }
             // the consumer drops the body after 0..2 polls (C11's concurrent part)
             if thorough || rng.chance(1, 4) {
                 for d in 0..3u32 {
-                    emit(SchedCase { cap, program: prog.clone(), fresh_waker: false, spurious: 0, drop_after: Some(d), probe_held: false,
+                    emit(SchedCase { cap, program: prog.clone(), fresh_waker: false, spurious: 0, drop_after: Some(d), probe_held: false, sample_hints: false,
                                      class: format!("S:cap={} drop-body-after={} prog={:?}", cap, d, short(&prog)) });
                 }
             }
@@ -79,7 +79,7 @@ pub fn gen_probe(emit: &mut dyn FnMut(SchedCase)) {
         }
         for prog in progs {
             for d in [None, Some(0u32), Some(1)] {
-                emit(SchedCase { cap, program: prog.clone(), fresh_waker: false, spurious: 0, drop_after: d, probe_held: true,
+                emit(SchedCase { cap, program: prog.clone(), fresh_waker: false, spurious: 0, drop_after: d, probe_held: true, sample_hints: false,
                                  class: format!("S:probe-held cap={} drop-body-after={:?} prog={:?}", cap, d, short(&prog)) });
             }
         }
@@ -107,4 +107,21 @@ fn short(p: &[POp]) -> Vec<String> {
             POp::Drop => "D".into(),
         })
         .collect()
+}
+
+/// C12 under interleavings: the consumer samples size_hint() before every poll while the producer
+/// writes, flushes and drops.
+pub fn gen_c12(emit: &mut dyn FnMut(SchedCase)) {
+    for cap in [1usize, 2, 4] {
+        let progs: Vec<Vec<POp>> = vec![
+            vec![POp::Write(vec![1; cap]), POp::Drop],
+            vec![POp::Write(vec![1; cap]), POp::Write(vec![2; 1]), POp::Drop],
+            vec![POp::Write(vec![1; 1]), POp::Flush, POp::Write(vec![2; 1]), POp::Drop],
+            vec![POp::Write(vec![1; cap]), POp::Write(vec![2; cap]), POp::Flush, POp::Drop],
+        ];
+        for prog in progs {
+            emit(SchedCase { cap, program: prog.clone(), fresh_waker: false, spurious: 0, drop_after: None, probe_held: false, sample_hints: true,
+                             class: format!("S:hints cap={} prog={:?}", cap, short(&prog)) });
+        }
+    }
 }
